@@ -66,6 +66,36 @@ def expr_labels(src, rng):
     return re.sub(r"(?<![\w.])(\d+\.\d+)::", rep, src)
 
 
+def gen(rng, **kw):
+    """The shared generator plus two shapes that matter for semiring-specific code paths: a query that grounds to TRUE
+    next to evidence (the evaluators special-case node 0, and the neutral-sum variant must still normalise), and very
+    small probabilities (a joint probability below the 1e-12 "is zero" tolerance of the probability semiring while the
+    evidence itself is well above it: every semiring must still report the same conditional probability)."""
+    P = spine.gen_program(rng, **kw)
+    from fractions import Fraction as F
+    r = rng.random()
+    if r < 0.35:
+        P["preds"]["dt"] = (0, 0)
+        P["stmts"].insert(rng.randrange(len(P["stmts"]) + 1), ("fact", ("dt", ())))
+        P["queries"].insert(rng.randrange(len(P["queries"]) + 1), ("dt", ()))
+    elif r < 0.6:
+        idx = [i for i, st in enumerate(P["stmts"]) if st[0] == "pf"]
+        rng.shuffle(idx)
+        idx = idx[:rng.randint(2, 3)]
+        for i in idx:
+            P["stmts"][i] = ("pf", F(1, 10 ** rng.choice([6, 7, 8])), P["stmts"][i][2])
+        P["tiny"] = True
+        if len(idx) >= 2 and rng.random() < 0.7:
+            # rare evidence (one tiny fact) and a query that needs a second tiny fact as well: P(q, e) is below 1e-12,
+            # P(e) is not, P(q | e) is about 1e-7
+            a1, a2 = P["stmts"][idx[0]][2], P["stmts"][idx[1]][2]
+            P["evidence"] = [(a1, True)]
+            P["preds"]["tq"] = (0, 1 + max(l for a, l in P["preds"].values()))
+            P["stmts"].append(("rule", ("tq", ()), [("pos", a1), ("pos", a2)]))
+            P["queries"].append(("tq", ()))
+    return P
+
+
 def run(ctx):
     from problog import get_evaluatables
     try:
@@ -79,4 +109,5 @@ def run(ctx):
     ctx.rule = ("generated programs x {default, ddnnf, auto-selected} x {probability, log-probability, user-defined "
                 "probability copy, NSP variant, symbolic}; non-trivial = at least one query instance and "
                 "more than one world")
-    return cfgprop.run(ctx, MODULE, THEOREMS, variants, nq=50, nt=700, level="proof", explanation=None, extra_modules=HOM)
+    return cfgprop.run(ctx, MODULE, THEOREMS, variants, nq=50, nt=700, level="proof", explanation=None, extra_modules=HOM,
+                       gen=gen)
